@@ -10,7 +10,7 @@ for _h, _nm, _tier, _shape in (("h_single", "c12_single_pair", "quick", "text . 
     U(_nm, ["C12", "C01"], _h, ["C12/cm.c"], ["critic_markup.c"], plain=True, lib=("lib/ds_sink.c",),
       defines=["-DTB=2", "-DSINK_CAP=24"], kind="bounded", tier=_tier,
       bounds={"shape": _shape, "text run bytes": "0..2 each, symbolic non-NUL", "accept/reject": "both (symbolic)", "unwind": 25},
-      cbmc_flags=["--unwind", "25", "--unwinding-assertions"], functions=_C12_FN,
+      cbmc_flags=["--unwind", "25", "--unwindset", "accept_token_tree.0:7,reject_token_tree.0:7,accept_token_tree_sub.0:7,accept_token_tree_sub.1:7,reject_token_tree_sub.0:7,reject_token_tree_sub.1:7,accept_token_tree:2,reject_token_tree:2,accept_token:3,reject_token:3,accept_token_tree_sub:2,reject_token_tree_sub:2", "--unwinding-assertions"], functions=_C12_FN,
       callees={"d_string_erase/d_string_new": "ghost sink (DString by specification, C19)"},
       native={"repo": ["critic_markup.c", "d_string.c"], "ldflags": ["-Wl,--unresolved-symbols=ignore-all"]}, small=["-DVERIF_SMALL=1"],
       min_obligations=20, timeout=600, cost=30, assumptions=[NOFAIL, _C12_SHAPE])
